@@ -194,6 +194,7 @@ def oracle(ctx):
     backward_options_probe(ctx)
     object_param_krylov_probe(ctx)
     round4_probes(ctx)
+    infinite_mask_probe(ctx)
 
 
 def backward_options_probe(ctx):
@@ -405,6 +406,71 @@ def round4_probes(ctx):
         if not torch.allclose(gb, ref_b, rtol=1e-6, atol=1e-8) or not torch.allclose(gs, ref_s, rtol=1e-6, atol=1e-8):
             ctx.fail("oracle", "rootgrad:krylov-backward-options", {"n": n, "bck_options": desc},
                      {"max_diff_b": float((gb - ref_b).abs().max()), "diff_s": float((gs - ref_s).abs())}, "the implicit-function gradient (rtol 1e-12 requested)")
+
+
+def infinite_mask_probe(ctx):
+    """the function's object may hold non-differentiable tensors with INFINITE entries (an additive causal mask: 0 on and below the
+    diagonal, -inf above) next to the differentiable ones: implicit gradients equal the implicit-function-theorem ones, with the dense
+    and with the Krylov backward solve (round-5 seed C04/14: the dummy graph connection p.reshape(-1)[0] * 0 became p.sum() * 0 =
+    nan for such a tensor)"""
+    import xitorch as xt
+    from xitorch.optimize import rootfinder
+    g = torch.Generator().manual_seed(ctx.seed + 53)
+
+    def body(y, W, mask, b):
+        return y - 0.5 * torch.softmax(W + mask, dim=-1) @ torch.tanh(y) - b
+
+    class Layer(xt.EditableModule):
+        def __init__(self, W, mask):
+            self.W = W
+            self.mask = mask
+
+        def forward(self, y, b):
+            return body(y, self.W, self.mask, b)
+
+        def getparamnames(self, methodname, prefix=""):
+            return [prefix + "W", prefix + "mask"]
+
+    class NNLayer(torch.nn.Module):
+        def __init__(self, W, mask):
+            super().__init__()
+            self.W = torch.nn.Parameter(W)
+            self.mask = torch.nn.Parameter(mask, requires_grad=False)
+
+        def forward(self, y, b):
+            return body(y, self.W, self.mask, b)
+    for n, bck in ((4, {}), (6, {"method": "bicgstab"})):
+        for kind in ("EditableModule", "nn.Module"):
+            W0 = torch.randn(n, n, dtype=DT, generator=g)
+            mask = torch.triu(torch.full((n, n), float("-inf"), dtype=DT), diagonal=1)
+            b = torch.randn(n, dtype=DT, generator=g).requires_grad_()
+            w = torch.randn(n, dtype=DT, generator=g)
+            if kind == "EditableModule":
+                W = W0.clone().requires_grad_()
+                layer = Layer(W, mask)
+            else:
+                layer = NNLayer(W0.clone(), mask)
+                W = layer.W
+            ctx.count(("infinite-mask", n, kind), nontrivial=True)
+            info = {"object": kind, "n": n, "held_tensors": "W (differentiable), mask (0 / -inf, frozen)", "bck_options": bck}
+            try:
+                with warnings.catch_warnings():
+                    warnings.simplefilter("ignore")
+                    y = rootfinder(layer.forward, torch.zeros(n, dtype=DT), params=(b,), method="broyden1", f_tol=1e-13, bck_options=dict(bck))
+                    gW, gb = torch.autograd.grad(y @ w, (W, b))
+            except Exception as e:
+                ctx.fail("oracle", "rootgrad:infinite-mask:exception", info, repr(e)[:300], "gradients")
+                continue
+            yd = y.detach()
+            J = torch.autograd.functional.jacobian(lambda yy: body(yy, W.detach(), mask, b.detach()), yd)
+            gvec = torch.linalg.solve(J.T, -w)
+            W1 = W.detach().clone().requires_grad_()
+            b1 = b.detach().clone().requires_grad_()
+            rW, rb = torch.autograd.grad(body(yd, W1, mask, b1), (W1, b1), grad_outputs=gvec)
+            eW, eb = float((gW - rW).abs().max()), float((gb - rb).abs().max())
+            if not (eW <= 1e-6 and eb <= 1e-6):
+                ctx.fail("oracle", "rootgrad:infinite-mask", info, {"err_W": eW, "err_b": eb, "nan": bool(torch.isnan(gW).any() or torch.isnan(gb).any())},
+                         "implicit-function-theorem gradients to 1e-6")
 
 
 def search(ctx):
